@@ -217,6 +217,15 @@ func Go(f func()) {
 	}
 	g.h = g.hid
 	g.pend = &op{kind: "start"}
+	if pc, _, _, ok := runtime.Caller(1); ok {
+		if fn := runtime.FuncForPC(pc); fn != nil {
+			n := fn.Name()
+			if i := strings.LastIndexByte(n, '/'); i >= 0 {
+				n = n[i+1:]
+			}
+			g.Name = "by:" + n
+		}
+	}
 	s.gs = append(s.gs, g)
 	go s.root(g, f)
 }
